@@ -124,13 +124,13 @@ def _run(case, acc, pinblock, pin, pan, fmt, key, fill, stub):
         if key:
             cls = pinblock.Iso0TDESPinBlockWithVisaPVV if case.get('cls') != 'custom' else \
                 type('P', (pinblock.Iso0PinBlock, pinblock.TdesEncryptedPinBlockMixin), {})
-        pb = cls(pin=pin, card_number=pan)
+        pb = cls(pin=pin, card_number=pan) if len(pin) % 2 else cls(pin, pan)     # keyword / positional by turns
         want = pin_ref.iso0_clear(pin, pan)
         got = pb.to_bytes()
         if got != want:
             acc.viol('c13.iso0.clear', case, got.hex(), want.hex(), 'format-0 clear block, PIN length %d' % len(pin))
             return
-        back = cls.from_bytes(got, card_number=pan).pin
+        back = (cls.from_bytes(got, card_number=pan) if len(pan) % 2 else cls.from_bytes(got, pan)).pin
         if back != pin:
             acc.viol('c13.iso0.from_bytes', case, back, pin, 'PIN rebuilt from the block bytes')
             return
